@@ -119,7 +119,7 @@ def main():
     if c.replay_path:
         rp = json.load(open(c.replay_path))
         h, shm, ko = rp.get("history", []), rp.get("shm", H.DEFAULT_SHM), rp.get("keys_oracle", False)
-        k, verdict, raw, mout, err = R.judge_history(h, shm, ko)
+        k, verdict, raw, mout, err = R.judge_history(h, shm, ko, "JL" if ko else "J8")
         cen = H.check_census(h, raw, [0] * len(h))
         for i, l in enumerate(h):
             print("case :", l[:200]); print("impl :", (raw[i] if i < len(raw) else "")[:200]); print("model:", (mout[i] if i < len(mout) else "")[:200])
@@ -146,7 +146,10 @@ def main():
     ev_by_stream = {}
     for name, shm, hists, ko in streams:
         prev["tail"] = None
-        r = R.run_stream(name, hists, shm, ko, nontrivial)
+        # judge: without memory pressure the reference cache of C08/Spec.lean must be matched exactly (J8);
+        # under pressure only the limit clause (JL) and the census are judged
+        jp = "JL" if ko else "J8"
+        r = R.run_stream(name, hists, shm, ko, nontrivial, jprefix=jp)
         cases, hist_of = r["cases"], r["hist_of"]
         judged += len(cases)
         for cs in cases:
@@ -179,10 +182,10 @@ def main():
         for hi, verdict in list(bad_h.items())[:3]:
             h = hists[hi]
             def fails(cand):
-                k, v, raw, mout, err = R.judge_history(cand, shm, ko)
+                k, v, raw, mout, err = R.judge_history(cand, shm, ko, jp)
                 return k is not None or bool(H.check_census(cand, raw, [0] * len(cand)))
             small = R.shrink(h, shm, fails) if fails(h) else h
-            kk, v2, raw, mout, err = R.judge_history(small, shm, ko)
+            kk, v2, raw, mout, err = R.judge_history(small, shm, ko, jp)
             c.violation(f"property predicate false on the implementation's answers: {verdict}",
                         {"history": small, "shm": shm, "stream": name, "keys_oracle": ko, "failing_line": kk,
                          "impl_outputs": [x[:300] for x in raw], "model_outputs": [x[:300] for x in mout],
